@@ -154,6 +154,14 @@ func (cl *Cluster) finish() {
 	if minH < uint64(cl.cfg.Heights) {
 		c.Probe("stalled-before-target")
 	}
+	for _, n := range cl.honest() {
+		if n.alive && n.cs != nil && n.cs.VerifStepRecover() {
+			c.Probe("node-in-recover-mode-at-end")
+		}
+	}
+	if cl.recoverSeen {
+		c.Probe("recover-mode-entered")
+	}
 	if cl.orc.probesRoundGt0 > 0 {
 		c.Probe("vote-in-round-gt0")
 	}
